@@ -437,6 +437,7 @@ type Contract struct {
 	Trusted    bool
 	NoSafety   bool // do not generate run-time panic obligations (used for sweeps that are not claimed)
 	MayPanic   bool
+	UnsafeReads string   // reason: unsafe.Pointer conversions in this function are only read through
 	Recovers   bool      // a deferred function of this function recovers panics of its callees (checked at every call that may panic)
 	OnPanic    []*Clause // what holds when a callee panicked and the deferred functions have run
 	Impl       []string // functype / iface contracts this function must also satisfy
@@ -479,6 +480,7 @@ type GhostFun struct {
 	Ret  string
 	Mem  string // "ghost T in CLASS": elements of the (slice) result live in memory class CLASS
 	InitFalse bool // "... initfalse": false for every newly allocated object
+	InitZero  bool // "... initzero": 0 for every newly allocated object (integer ghosts)
 	Stable bool // "... stable": not havocked by calls to unknown code (assumption: unknown code leaves it as it found it)
 }
 
@@ -499,7 +501,7 @@ func NewSpecs() *Specs {
 	return &Specs{Contracts: map[string]*Contract{}, Funs: map[string]*SpecFun{}, Ghosts: map[string]*GhostFun{}}
 }
 
-var keywordRe = regexp.MustCompile(`^(func|iface|functype|spec|ufun|hfun|haxiom|hlemma|axiom|lemma|ghost|property|trusted|pure|implements|requires|ensures|modifies|loop|invariant|decreases|end|may_panic|nosafety|assume|alloc|hint|posthint|replay|check|split|ghostset|atcall|assumepre|slicewf|recovers|onpanic|absidx|tier)\b`)
+var keywordRe = regexp.MustCompile(`^(func|iface|functype|spec|ufun|hfun|haxiom|hlemma|axiom|lemma|ghost|property|trusted|pure|implements|requires|ensures|modifies|loop|invariant|decreases|end|may_panic|nosafety|assume|alloc|hint|posthint|replay|check|split|ghostset|atcall|assumepre|slicewf|recovers|onpanic|unsafe_reads|absidx|tier)\b`)
 var labelRe = regexp.MustCompile(`^([A-Za-z_][A-Za-z0-9_.]*)\s*:([^:]|$)`)
 var propTagRe = regexp.MustCompile(`^\[([A-Za-z0-9 ,]+)\]\s*`)
 var headRe = regexp.MustCompile(`^(\S.*?)\(([^)]*)\)\s*(?:\(([^)]*)\))?\s*$`)
@@ -651,6 +653,11 @@ func (sp *Specs) ParseSpecFile(path string, pkg string) error {
 			cur.HasMod = true
 		case "may_panic":
 			cur.MayPanic = true
+		case "unsafe_reads":
+			cur.UnsafeReads = strings.TrimSpace(strings.TrimPrefix(strings.TrimSpace(rest), ":"))
+			if cur.UnsafeReads == "" {
+				return fmt.Errorf("%s:%d: unsafe_reads needs a reason", path, l.n)
+			}
 		case "recovers":
 			cur.Recovers = true
 		case "onpanic":
@@ -868,6 +875,10 @@ func (sp *Specs) ParseSpecFile(path string, pkg string) error {
 			i := strings.Index(rest, "(")
 			j := matchParen(rest, i)
 			g := &GhostFun{Name: strings.TrimSpace(rest[:i]), Arg: strings.TrimSpace(rest[i+1 : j]), Ret: strings.TrimSpace(rest[j+1:])}
+			if strings.HasSuffix(g.Ret, " initzero") {
+				g.InitZero = true
+				g.Ret = strings.TrimSpace(strings.TrimSuffix(g.Ret, " initzero"))
+			}
 			if strings.HasSuffix(g.Ret, " initfalse") {
 				g.InitFalse = true
 				g.Ret = strings.TrimSpace(strings.TrimSuffix(g.Ret, " initfalse"))
